@@ -624,6 +624,20 @@ func (env *Env) evalInstr(in ssa.Instruction, get func(ssa.Value) Val, st *State
 		e.note("slice of array pointer: abstracted")
 		return env.freshVal("slc", in.Type()), true
 	case *ssa.Convert:
+		if sl, ok := in.X.Type().Underlying().(*types.Slice); ok && !env.quant {
+			if b, ok := sl.Elem().Underlying().(*types.Basic); ok && b.Kind() == types.Uint8 {
+				if tb, ok := in.Type().Underlying().(*types.Basic); ok && tb.Info()&types.IsString != 0 {
+					// string(bytes): a string with exactly these bytes (as they are now)
+					x := get(in.X)
+					c := e.freshConst("bstr", "Str")
+					h := st.get(e.elemHeap(sl.Elem()))
+					env.fact(fmt.Sprintf("(= (str_len %s) (s.len %s))", c, x.T))
+					i := e.fresh("bv_i")
+					env.fact(fmt.Sprintf("(forall ((%s Int)) (! (=> (and (<= 0 %s) (< %s (s.len %s))) (= (str_at %s %s) (select (select %s (s.arr %s)) (+ (s.off %s) %s)))) :pattern ((str_at %s %s))))", i, i, i, x.T, c, i, h, x.T, x.T, i, c, i))
+					return Val{T: c, S: "Str"}, true
+				}
+			}
+		}
 		return env.convert(get(in.X), in.X.Type(), in.Type()), true
 	case *ssa.ChangeType:
 		x := get(in.X)
